@@ -128,6 +128,7 @@ type FuncContract struct {
 	Opaque   []string
 	Uses     []SExpr // lemma applications assumed at function entry (pre-state)
 	UsesPost []SExpr // lemma applications added as hypotheses of the post obligations
+	PanicRequires []Clause // extra preconditions under which the function is claimed not to panic (C10/C20 checks only)
 	Props    []string
 	Panics   SExpr // panics_when
 	Inline   bool  // force use of body at call sites (no contract abstraction)
@@ -229,36 +230,36 @@ func lex(src string) ([]tok, error) {
 
 // ---------- parser ----------
 
-type parser struct {
+type specParser struct {
 	toks []tok
 	p    int
 	src  string
 }
 
-func (p *parser) peek() tok { return p.toks[p.p] }
-func (p *parser) next() tok { t := p.toks[p.p]; p.p++; return t }
-func (p *parser) isOp(s string) bool {
+func (p *specParser) peek() tok { return p.toks[p.p] }
+func (p *specParser) next() tok { t := p.toks[p.p]; p.p++; return t }
+func (p *specParser) isOp(s string) bool {
 	t := p.peek()
 	return t.kind == "op" && t.s == s
 }
-func (p *parser) isIdent(s string) bool {
+func (p *specParser) isIdent(s string) bool {
 	t := p.peek()
 	return t.kind == "ident" && t.s == s
 }
-func (p *parser) expectOp(s string) {
+func (p *specParser) expectOp(s string) {
 	t := p.next()
 	if t.kind != "op" || t.s != s {
 		p.fail("expected %q, got %q", s, t.s)
 	}
 }
-func (p *parser) expectIdent() string {
+func (p *specParser) expectIdent() string {
 	t := p.next()
 	if t.kind != "ident" {
 		p.fail("expected identifier, got %q", t.s)
 	}
 	return t.s
 }
-func (p *parser) fail(f string, a ...interface{}) {
+func (p *specParser) fail(f string, a ...interface{}) {
 	pos := p.peek().pos
 	lo := pos - 40
 	if lo < 0 {
@@ -276,7 +277,7 @@ func parseExpr(src string) (e SExpr, err error) {
 	if err != nil {
 		return nil, err
 	}
-	p := &parser{toks: toks, src: src}
+	p := &specParser{toks: toks, src: src}
 	defer func() {
 		if r := recover(); r != nil {
 			if pe, ok := r.(error); ok {
@@ -294,7 +295,7 @@ func parseExpr(src string) (e SExpr, err error) {
 }
 
 // precedence (low→high): <==>, ==> (right), ?:, ||, &&, comparison, + -, * / %, unary, postfix
-func (p *parser) expr() SExpr {
+func (p *specParser) expr() SExpr {
 	if p.isIdent("forall") || p.isIdent("exists") {
 		return p.quant()
 	}
@@ -313,7 +314,7 @@ func (p *parser) expr() SExpr {
 	return p.iff()
 }
 
-func (p *parser) quant() SExpr {
+func (p *specParser) quant() SExpr {
 	kind := p.next().s
 	var vars []SParam
 	for {
@@ -350,7 +351,7 @@ func (p *parser) quant() SExpr {
 	return SQuant{kind, vars, body, pats}
 }
 
-func (p *parser) typeName() string {
+func (p *specParser) typeName() string {
 	if p.isOp("[") {
 		p.next()
 		k := p.typeName()
@@ -361,7 +362,7 @@ func (p *parser) typeName() string {
 	return p.expectIdent()
 }
 
-func (p *parser) iff() SExpr {
+func (p *specParser) iff() SExpr {
 	x := p.implies()
 	for p.isOp("<==>") {
 		p.next()
@@ -371,7 +372,7 @@ func (p *parser) iff() SExpr {
 	return x
 }
 
-func (p *parser) implies() SExpr {
+func (p *specParser) implies() SExpr {
 	x := p.cond()
 	if p.isOp("==>") {
 		p.next()
@@ -386,7 +387,7 @@ func (p *parser) implies() SExpr {
 	return x
 }
 
-func (p *parser) cond() SExpr {
+func (p *specParser) cond() SExpr {
 	c := p.or()
 	if p.isOp("?") {
 		p.next()
@@ -398,7 +399,7 @@ func (p *parser) cond() SExpr {
 	return c
 }
 
-func (p *parser) or() SExpr {
+func (p *specParser) or() SExpr {
 	x := p.and()
 	for p.isOp("||") {
 		p.next()
@@ -406,7 +407,7 @@ func (p *parser) or() SExpr {
 	}
 	return x
 }
-func (p *parser) and() SExpr {
+func (p *specParser) and() SExpr {
 	x := p.cmp()
 	for p.isOp("&&") {
 		p.next()
@@ -414,7 +415,7 @@ func (p *parser) and() SExpr {
 	}
 	return x
 }
-func (p *parser) cmp() SExpr {
+func (p *specParser) cmp() SExpr {
 	x := p.sum()
 	// chained comparisons a <= b < c
 	var res SExpr
@@ -439,7 +440,7 @@ func (p *parser) cmp() SExpr {
 	}
 	return x
 }
-func (p *parser) sum() SExpr {
+func (p *specParser) sum() SExpr {
 	x := p.prod()
 	for p.isOp("+") || p.isOp("-") {
 		op := p.next().s
@@ -447,7 +448,7 @@ func (p *parser) sum() SExpr {
 	}
 	return x
 }
-func (p *parser) prod() SExpr {
+func (p *specParser) prod() SExpr {
 	x := p.unary()
 	for p.isOp("*") || p.isOp("/") || p.isOp("%") {
 		op := p.next().s
@@ -455,14 +456,14 @@ func (p *parser) prod() SExpr {
 	}
 	return x
 }
-func (p *parser) unary() SExpr {
+func (p *specParser) unary() SExpr {
 	if p.isOp("!") || p.isOp("-") || p.isOp("*") {
 		op := p.next().s
 		return SUnary{op, p.unary()}
 	}
 	return p.postfix()
 }
-func (p *parser) postfix() SExpr {
+func (p *specParser) postfix() SExpr {
 	x := p.primary()
 	for {
 		switch {
@@ -490,7 +491,7 @@ func (p *parser) postfix() SExpr {
 		}
 	}
 }
-func (p *parser) primary() SExpr {
+func (p *specParser) primary() SExpr {
 	t := p.next()
 	switch t.kind {
 	case "num":
@@ -535,7 +536,7 @@ func (p *parser) primary() SExpr {
 var clauseKeywords = map[string]bool{
 	"requires": true, "ensures": true, "modifies": true, "decreases": true, "reveal": true, "opaque": true,
 	"uses": true, "prop": true, "trusted": true, "invariant": true, "panics_when": true, "inline": true,
-	"induction": true, "trigger": true, "expect": true, "cover": true, "nopanic": true, "uses_post": true,
+	"induction": true, "trigger": true, "expect": true, "cover": true, "nopanic": true, "uses_post": true, "panic_requires": true,
 }
 var declKeywords = map[string]bool{"spec": true, "lemma": true, "ghost": true, "func": true, "loop": true, "pred": true, "effects": true, "package-effects": true}
 
@@ -759,6 +760,11 @@ func parseSpecText(pkg string, lines []string) (sf *SpecFile, err error) {
 			} else if curF != nil {
 				curF.Uses = append(curF.Uses, es...)
 			}
+		case "panic_requires":
+			if curF == nil {
+				panic(fmt.Errorf("spec: stray panic_requires"))
+			}
+			curF.PanicRequires = append(curF.PanicRequires, Clause{E: mustExpr(it.text), Text: it.text})
 		case "uses_post":
 			if curF == nil {
 				panic(fmt.Errorf("spec: stray uses_post"))
